@@ -35,21 +35,24 @@ def block_knob():
     import inspect
     import pydiffx.reader as R
     f = getattr(R.DiffXReader, '_read_until', None)
-    if f is None:
-        return None
-    try:
-        for name, prm in inspect.signature(f).parameters.items():
-            if type(prm.default) is int and prm.default > 1:
-                return ('param', name)
-    except (TypeError, ValueError):
-        pass
-    code = getattr(f, '__code__', None)
-    for nm in (code.co_names if code else ()):
-        v = getattr(R.DiffXReader, nm, None)
-        if type(v) is int and v > 1:
+    if f is not None:
+        try:
+            for name, prm in inspect.signature(f).parameters.items():
+                if type(prm.default) is int and prm.default > 1:
+                    return ('param', name)
+        except (TypeError, ValueError):
+            pass
+    # an int constant on the class / in the module that some method of the reader reads
+    used = set()
+    for v in vars(R.DiffXReader).values():
+        code = getattr(v, '__code__', None)
+        if code is not None:
+            used.update(code.co_names)
+    for nm, v in vars(R.DiffXReader).items():
+        if type(v) is int and v > 1 and nm in used:
             return ('attr', nm)
-        v = vars(R).get(nm)
-        if type(v) is int and v > 1:
+    for nm, v in vars(R).items():
+        if type(v) is int and v > 1 and nm in used and any(t in nm.upper() for t in ('CHUNK', 'BLOCK', 'SIZE', 'BUF')):
             return ('global', nm)
     return None
 
@@ -67,6 +70,7 @@ class forced_block(object):
         rd, k = self.rd, self.k
         if kind == 'param':
             orig = rd._read_until
+            self.restore = orig
 
             def wrapped(*a, **kw):
                 kw[name] = k
@@ -240,24 +244,28 @@ def obligations(tier):
     from pydiffx.reader import DiffXReader
     obs = []
     quick = tier == 'quick'
-    if hasattr(DiffXReader, '_read_until') and block_knob() is not None:
+    knob = block_knob()
+    if hasattr(DiffXReader, '_read_until') and knob is not None:
         U = 4 if quick else 9
         obs.append(Ob('read_until[abstract]', ob_read_until, dict(U=U), must_reach=['DiffXReader._read_until'], allow_cut=True, may_decline=True,
                       desc='real _read_until on the interval-abstract stream; block size k>=1, stream length, start '
                            'and delimiter position are unbounded symbolic integers; at most %d reads' % U,
                       bounds={'max_reads_per_search': U, 'k': '>=1 (symbolic)', 'T,pos0,d': 'symbolic'}))
+    else:
+        obs.append(('skipped', 'read_until[abstract]', 'DiffXReader._read_until not found in the current source (or no '
+                    'way to vary its block size): the line search cannot be run in isolation on the abstract stream'))
+    if knob is not None:
         ks = [1, 2, 3, 4, 5, 7, 8, 16, 19, 20, 21, 95, 96, 97, 100000] if quick else \
             list(range(1, 41)) + [63, 64, 65, 95, 96, 97, 191, 192, 193, 100000]
         pads = list(range(0, 30)) if quick else list(range(0, 200))
         obs.append(Ob('reader[bytes,k]', ob_bytes, dict(ks=ks, pads=pads, N=3 if quick else 4),
                       must_reach=['DiffXReader._read_until', 'DiffXReader._read_content'], path_timeout=8,
                       desc='whole reader on a 2-file skeleton; first header padded by an unknown option; read-ahead '
-                           'block size forced to k; diff content symbolic',
+                           'block size forced to k (through %s %s of the current source); diff content symbolic' % knob,
                       bounds={'k': ks, 'pad': [pads[0], pads[-1]], 'content_len': [1, 3 if quick else 4]}))
     else:
-        obs.append(('skipped', 'read_until[abstract]', 'DiffXReader._read_until not found in the current source, or no '
-                    'parameter / constant found through which its block size can be varied; the public obligations '
-                    'below run with the implementation\'s own block size'))
+        obs.append(('skipped', 'reader[bytes,k]', 'no parameter / constant found through which the read-ahead block '
+                    'size can be varied; the public obligations below run with the implementation\'s own block size'))
     pads = list(range(0, 30)) + list(range(70, 125)) if quick else list(range(0, 300))
     obs.append(Ob('reader[public]', ob_public, dict(pads=pads, N=3 if quick else 4),
                   must_reach=['DiffXReader.iter_sections'], path_timeout=8,
